@@ -29,6 +29,7 @@ def check(repo, col, tier):
     col.rule("R-C18-share", "no shared mutable state between instances", 6)
     col.rule("R-C18-protocol", "a custom copy/pickle protocol method copies the whole state and shares nothing", 2)
     _protocol(repo, col)
+    _registry(repo, col)
     col.rule("R-C18-plain", "objects that live on a module hold plain data and are instances of importable classes", 20)
     _plain(repo, col)
     _closures(repo, col)
@@ -154,7 +155,7 @@ def _closures(repo, col):
 PROTOCOL = ("__deepcopy__", "__getstate__", "__setstate__", "__reduce__", "__reduce_ex__", "__getnewargs__", "__getnewargs_ex__")
 
 
-def protocol_findings(cls_node: ast.ClassDef):
+def protocol_findings(cls_node: ast.ClassDef, late_attrs=()):
     """Findings (verdict, method node, construct, reason) for custom copy/pickle protocol methods of one class.
     verdict: 'ok' | 'bad' | 'unk'.  The default protocol (no method) deep-copies / pickles the complete
     instance dictionary, so the obligation only exists for classes that override it."""
@@ -192,6 +193,31 @@ def protocol_findings(cls_node: ast.ClassDef):
                 out.append(("bad", m, unparse(n)[:80], why))
             continue
         whole = f"{me}.__dict__" in src
+        if m.name in ("__reduce__", "__reduce_ex__"):
+            # (callable, args): the object is REBUILT by calling `callable(*args)`; nothing but the arguments survives.  With a
+            # third element (the state) the default __setstate__ restores the instance dictionary.
+            rets = [r.value for r in ast.walk(m) if isinstance(r, ast.Return) and r.value is not None]
+            shapes = []
+            for v in rets:
+                if isinstance(v, ast.Tuple) and len(v.elts) == 2:
+                    shapes.append("rebuild")
+                elif isinstance(v, ast.Tuple) and len(v.elts) >= 3 and f"{me}.__dict__" in unparse(v.elts[2]) or \
+                        (isinstance(v, ast.Tuple) and len(v.elts) >= 3 and unparse(v.elts[2]).startswith(f"{me}.__getstate__(")):
+                    shapes.append("state")
+                elif isinstance(v, ast.Call) and unparse(v.func) in ("super().__reduce__", "super().__reduce_ex__", "object.__reduce_ex__", "object.__reduce__"):
+                    shapes.append("state")
+                else:
+                    shapes.append("?")
+            if shapes and all(s_ == "state" for s_ in shapes):
+                out.append(("ok", m, m.name, "the complete instance dictionary is the pickled state"))
+            elif "rebuild" in shapes and late_attrs:
+                ex_ = ", ".join(sorted(late_attrs)[:4])
+                out.append(("bad", m, m.name, f"`{unparse(rets[shapes.index('rebuild')])[:80]}` rebuilds the object by calling the constructor and carries no state: "
+                            f"everything the object acquired after construction (attributes set outside __init__: {ex_}, ...; edited tables) is lost "
+                            f"in the copy / the loaded object"))
+            else:
+                out.append(("unk", m, m.name, "custom protocol method whose completeness this analysis cannot establish"))
+            continue
         if m.name == "__deepcopy__":
             ok = whole and re.search(r"\bdeepcopy\(", src) is not None
         elif m.name == "__setstate__":
@@ -223,6 +249,9 @@ class Y:
         state = self.__dict__.copy()
         del state['recordings']
         return state
+class Z:
+    def __reduce__(self):
+        return (Z, (self.base, self.rows))
 """
 
 
@@ -230,14 +259,25 @@ def _protocol(repo, col):
     R = "R-C18-protocol"
     # positive examples that must match on every run (the expected count on the repository is zero)
     ex = ast.parse(_POSITIVE)
-    fx = [f for c in ex.body for f in protocol_findings(c)]
+    fx = [f for c in ex.body for f in protocol_findings(c, {"_scope"})]
     got = sorted((c, m.name) for c, m, _, _ in fx)
-    if got != [("bad", "__deepcopy__"), ("bad", "__getstate__"), ("ok", "__deepcopy__")]:
+    if got != [("bad", "__deepcopy__"), ("bad", "__getstate__"), ("bad", "__reduce__"), ("ok", "__deepcopy__")]:
         raise AnalysisError(f"copy-protocol rule does not recognise its reference examples: {got}")
     n = 0
     for cname, ci in sorted(repo.classes.items()):
         n += 1
-        fs = protocol_findings(ci.node)
+        late = set()
+        if any(isinstance(m_, ast.FunctionDef) and m_.name in ("__reduce__", "__reduce_ex__") for m_ in ci.node.body):
+            for k in repo.mro(cname):
+                for m_ in k.node.body:
+                    if isinstance(m_, ast.FunctionDef) and m_.name not in ("__init__",) + PROTOCOL and m_.args.args:
+                        me_ = m_.args.args[0].arg
+                        for n_ in ast.walk(m_):
+                            if isinstance(n_, (ast.Assign, ast.AugAssign, ast.AnnAssign)):
+                                for t_ in (n_.targets if isinstance(n_, ast.Assign) else [n_.target]):
+                                    if isinstance(t_, ast.Attribute) and isinstance(t_.value, ast.Name) and t_.value.id == me_:
+                                        late.add(t_.attr)
+        fs = protocol_findings(ci.node, late)
         if not fs:
             col.ok(R, ci.file, f"{cname} keeps the default copy / pickle protocol", "complete instance dictionary is copied", func=cname, node=ci.node)
         for verdict, m, construct, why in fs:
@@ -250,6 +290,64 @@ def _protocol(repo, col):
                 col.unk(R, ci.file, title, why, func=f"{cname}.{m.name}", node=m)
     if n < 20:
         raise AnalysisError(f"only {n} classes scanned for copy-protocol methods")
+
+
+def registry_findings(tree: ast.AST, imports=None):
+    """Process-wide reducer registrations: `copyreg.pickle(T, fn)`, `copyreg.dispatch_table[T] = fn`, `copy._deepcopy_dispatch[T] = fn`
+    (also through `from copyreg import pickle`).  They change how EVERY instance of T inside a module is pickled / copied."""
+    imports = imports or {}
+    out = []
+    for n in ast.walk(tree):
+        if isinstance(n, ast.Call):
+            f = unparse(n.func)
+            ext = imports.get(f)
+            dotted = ext[1] if (ext and ext[0] == "ext") else f
+            if dotted in ("copyreg.pickle", "copyreg.constructor") and n.args:
+                out.append((n, n.args[0], n.args[1] if len(n.args) > 1 else None))
+        if isinstance(n, ast.Assign):
+            for t in n.targets:
+                if isinstance(t, ast.Subscript) and unparse(t.value).split(".")[-1] in ("dispatch_table", "_deepcopy_dispatch", "_copy_dispatch"):
+                    out.append((n, t.slice, n.value))
+    return out
+
+
+_POSITIVE_REG = """
+import copyreg
+copyreg.pickle(type(jnp.zeros(())), lambda x: (np.asarray, (np.asarray(x),)))
+copy._deepcopy_dispatch[Cell] = lambda x, memo: x
+"""
+
+
+def _registry(repo, col):
+    R = "R-C18-protocol"
+    if len(registry_findings(ast.parse(_POSITIVE_REG))) != 2:
+        raise AnalysisError("reducer-registration rule does not recognise its reference examples")
+    n = 0
+    for file, mi in sorted(repo.mods.items()):
+        n += 1
+        fs = registry_findings(mi.tree, mi.imports)
+        if not fs:
+            col.ok(R, file, "no process-wide pickle / copy reducer is registered", "", func="<module>", node=mi.tree)
+            continue
+        for node, typ, red in fs:
+            tsrc, rsrc = unparse(typ), unparse(red) if red is not None else "?"
+            # what the reducer rebuilds with: first element of the returned pair
+            ctor = None
+            body = red.body if isinstance(red, ast.Lambda) else None
+            if isinstance(body, ast.Tuple) and body.elts:
+                ctor = unparse(body.elts[0])
+            jaxish = re.search(r"\b(jnp|jax)\b", tsrc) is not None
+            changes_kind = ctor is not None and ctor.split(".")[0] in ("np", "numpy") and jaxish
+            shares = isinstance(red, ast.Lambda) and isinstance(body, ast.Name) and body.id == red.args.args[0].arg
+            verdict = "VIOLATED" if (changes_kind or shares) else "UNDECIDED"
+            col.add(R, file, f"registered reducer for `{tsrc[:50]}` returns an identical, independent object", verdict,
+                    (f"`{unparse(node)[:100]}`: every `{tsrc[:40]}` inside a module is rebuilt with `{ctor}` -- the loaded module holds numpy arrays "
+                     f"where the original holds jax arrays (`.at[...]` of a later edit or of Network([...]) fails, trainables change kind)") if changes_kind else
+                    (f"`{unparse(node)[:100]}` returns the object itself: copies share it with the original" if shares else
+                     f"`{unparse(node)[:100]}`: a process-wide reducer whose result this analysis cannot compare with the default"),
+                    func="<module>", node=node)
+    if n < 20:
+        raise AnalysisError(f"only {n} modules scanned for reducer registrations")
 
 
 HIER = ("Module", "Channel", "Synapse", "Transform")
